@@ -214,3 +214,70 @@ def gen_set_sites():
     lines += ["]", "", "end GtModel.Gen", ""]
     _write_if_changed(os.path.join(GEN_DIR, "SetSites.lean"), "\n".join(lines))
     return sites
+
+
+# --------------------------------------------------------------------------------------------------
+# C13: the formatter registry and the class hierarchies the dispatch (`formatter._get_formatter`) inspects
+
+_EXTRACT_FMT = r'''
+import json, sys, inspect
+import graphtage
+from graphtage import formatter as F, tree as T
+import graphtage.pydiff, graphtage.dataclasses, graphtage.xml, graphtage.csv, graphtage.plist, graphtage.yaml, graphtage.json, graphtage.pickle
+
+def fmt(inst):
+    prints = sorted(n for n in dir(inst) if n.startswith("print_") and callable(getattr(inst, n, None)))
+    return {"cls": type(inst).__name__, "prints": prints, "subs": [fmt(s) for s in inst.sub_formatters]}
+
+def all_subclasses(c, seen=None):
+    seen = seen if seen is not None else []
+    for s in c.__subclasses__():
+        if s not in seen:
+            seen.append(s)
+            all_subclasses(s, seen)
+    return seen
+
+nodes = [c for c in all_subclasses(T.TreeNode) if not c.__name__.startswith("Edited")]
+edits = [c for c in all_subclasses(graphtage.edits.AbstractEdit)]
+def own_print(c):
+    p = getattr(c, "print", None)
+    return p is not None and not getattr(p, "__isabstractmethod__", False)
+out = {
+  "formatters": [fmt(f) for f in F.FORMATTERS],
+  "nodes": sorted([[c.__name__, [k.__name__ for k in c.mro()], bool(own_print(c)), bool(inspect.isabstract(c))] for c in nodes]),
+  "edits": sorted([[c.__name__, [k.__name__ for k in c.mro()], bool(own_print(c)), bool(inspect.isabstract(c))] for c in edits]),
+}
+print(json.dumps(out))
+'''
+
+
+def extract_formatters():
+    env = dict(os.environ)
+    env["PYTHONPATH"] = C.REPO
+    p = subprocess.run([C.PY, "-c", _EXTRACT_FMT], capture_output=True, text=True, env=env, timeout=120)
+    if p.returncode != 0:
+        raise RuntimeError("formatter table extraction failed: " + p.stderr[-800:])
+    return json.loads(p.stdout.strip().split("\n")[-1])
+
+
+def gen_formatter_tables():
+    t = extract_formatters()
+
+    def f(x, ind):
+        pad = "  " * ind
+        subs = ",\n".join(f(s, ind + 1) for s in x["subs"])
+        return f'{pad}.mk {_s(x["cls"])} {_lst(_s(p) for p in x["prints"])} [' + ("\n" + subs + "\n" + pad if subs else "") + "]"
+    lines = ["-- GENERATED from /repo by harness/gentables.py on every run. Do not edit.",
+             "import GtModel.Model.Dispatch", "namespace GtModel.Gen", "open GtModel.Dispatch", "",
+             "/-- graphtage.formatter.FORMATTERS: every non-partial formatter with its print_* methods and sub-formatter tree -/",
+             "def formatters : List Fmt := ["]
+    lines.append(",\n".join(f(x, 1) for x in t["formatters"]))
+    lines += ["]", "", "/-- every TreeNode subclass: (name, MRO names, has a concrete print(), is abstract) -/",
+              "def nodeClasses : List (String × List String × Bool × Bool) := ["]
+    lines.append(",\n".join(f"  ({_s(n)}, {_lst(_s(m) for m in mro)}, {str(op).lower()}, {str(ab).lower()})" for n, mro, op, ab in t["nodes"]))
+    lines += ["]", "", "/-- every AbstractEdit subclass: (name, MRO names, has a concrete print(), is abstract) -/",
+              "def editClasses : List (String × List String × Bool × Bool) := ["]
+    lines.append(",\n".join(f"  ({_s(n)}, {_lst(_s(m) for m in mro)}, {str(op).lower()}, {str(ab).lower()})" for n, mro, op, ab in t["edits"]))
+    lines += ["]", "", "end GtModel.Gen", ""]
+    _write_if_changed(os.path.join(GEN_DIR, "FormatterTables.lean"), "\n".join(lines))
+    return t
